@@ -1338,4 +1338,177 @@ example : wkEnv.block (wkEnv.block 2).id = wkEnv.block 2 ∧ (canon wkEnv wkG 1)
     (play wkEnv (canon wkEnv wkG 1) 0 (wkEnv.block 2)).1.U = (canon wkEnv wkG 2).U := by
   decide
 
+-- ================================================================== independent transactions commute
+
+/-- a row of the UTXO table after `applyTx`: an output of `t` that materialises; else gone if `t` spends it; else as
+before -/
+theorem applyTx_U_lookup (s : St) (t : Tx) (k : Ver) :
+    lookup (applyTx s t).U k =
+      if k.1 = t.id ∧ materialises t.outs 0 k.2 = true then
+        (t.outs[k.2 - 0]?).map (fun x => ⟨x.addr, x.amt, x.frozen⟩)
+      else if k ∈ t.ins.map (fun r => (r.tx, r.off)) then none else lookup s.U k := by
+  unfold applyTx
+  rw [applyOuts_lookup]
+  simp only
+  rw [foldl_del_lookup, (applyKOut_frame t t.kout 0 s).1]
+
+theorem applyTx_total (s : St) (t : Tx) :
+    (applyTx s t).total = s.total + (if t.coinbase then paidOf t.outs else 0) := by
+  unfold applyTx
+  rw [applyOuts_total]
+  simp only
+  rw [(applyKOut_frame t t.kout 0 s).2.1]
+
+/-- the two key rows after `applyTx`, for a key `t` does not write -/
+theorem applyTx_key_other (s : St) (t : Tx) (key : String) (hk : key ∉ t.kout.map (·.key)) :
+    lookup (applyTx s t).ZU key = lookup s.ZU key ∧ lookup (applyTx s t).ZD key = lookup s.ZD key := by
+  rw [applyTx_ZU, applyTx_ZD]
+  exact applyKOut_other t t.kout 0 s key hk
+
+/-- the two key rows after `applyTx`, for the key written at index `i` -/
+theorem applyTx_key_written (s : St) (t : Tx) (hnd : koutDistinct t) (i : Nat) (ko : KOut) (hi : t.kout[i]? = some ko) :
+    lookup (applyTx s t).ZU ko.key = (if ko.del then none else some (t.id, i)) ∧
+    lookup (applyTx s t).ZD ko.key = (if ko.del then some (t.id, i) else lookup s.ZD ko.key) := by
+  rw [applyTx_ZU, applyTx_ZD]
+  have := applyKOut_written t t.kout 0 s i ko hnd hi
+  rw [Nat.zero_add] at this
+  exact this
+
+/-- two transactions are independent: different ids, neither spends an output of the other, no key written by both -/
+structure Indep (t1 t2 : Tx) : Prop where
+  id : t1.id ≠ t2.id
+  cite12 : ∀ r ∈ t2.ins, r.tx ≠ t1.id
+  cite21 : ∀ r ∈ t1.ins, r.tx ≠ t2.id
+  keys : ∀ k1 ∈ t1.kout, ∀ k2 ∈ t2.kout, k1.key ≠ k2.key
+
+/-- row-by-row equality of the four tables -/
+structure RowEq (s s' : St) : Prop where
+  U : ∀ k, lookup s.U k = lookup s'.U k
+  ZU : ∀ k, lookup s.ZU k = lookup s'.ZU k
+  ZD : ∀ k, lookup s.ZD k = lookup s'.ZD k
+  total : s.total = s'.total
+
+theorem RowEq.trefines {s s' : St} (h : RowEq s s') : TRefines s s' :=
+  ⟨⟨h.U, fun key => curVer_congr_tables s s' key (h.ZU key) (h.ZD key), h.total⟩, h.ZU,
+    fun k m hm => by rw [← h.ZD k]; exact hm⟩
+
+theorem RowEq.symm {s s' : St} (h : RowEq s s') : RowEq s' s :=
+  ⟨fun k => (h.U k).symm, fun k => (h.ZU k).symm, fun k => (h.ZD k).symm, h.total.symm⟩
+
+/-- **independent transactions commute**: applied in either order they leave the same tables, row by row -/
+theorem applyTx_comm (s : St) (t1 t2 : Tx) (hi : Indep t1 t2) (hnd1 : koutDistinct t1) (hnd2 : koutDistinct t2) :
+    RowEq (applyTx (applyTx s t1) t2) (applyTx (applyTx s t2) t1) := by
+  refine ⟨fun k => ?_, fun key => ?_, fun key => ?_, ?_⟩
+  · rw [applyTx_U_lookup (applyTx s t1) t2, applyTx_U_lookup s t1, applyTx_U_lookup (applyTx s t2) t1,
+      applyTx_U_lookup s t2]
+    by_cases a1 : k.1 = t1.id ∧ materialises t1.outs 0 k.2 = true
+    · have a2 : ¬ (k.1 = t2.id ∧ materialises t2.outs 0 k.2 = true) := fun h => hi.id (a1.1.symm.trans h.1)
+      have b2 : k ∉ t2.ins.map (fun r => (r.tx, r.off)) := by
+        intro hm
+        obtain ⟨r, hr, he⟩ := List.mem_map.mp hm
+        exact hi.cite12 r hr (by rw [← a1.1, ← he])
+      simp only [if_pos a1, if_neg a2, if_neg b2]
+    · by_cases a2 : k.1 = t2.id ∧ materialises t2.outs 0 k.2 = true
+      · have b1 : k ∉ t1.ins.map (fun r => (r.tx, r.off)) := by
+          intro hm
+          obtain ⟨r, hr, he⟩ := List.mem_map.mp hm
+          exact hi.cite21 r hr (by rw [← a2.1, ← he])
+        simp only [if_neg a1, if_pos a2, if_neg b1]
+      · simp only [if_neg a1, if_neg a2]
+        by_cases b1 : k ∈ t1.ins.map (fun r => (r.tx, r.off)) <;>
+          by_cases b2 : k ∈ t2.ins.map (fun r => (r.tx, r.off)) <;>
+          simp only [b1, b2, ↓reduceIte]
+  · by_cases w1 : key ∈ t1.kout.map (·.key)
+    · obtain ⟨k1, hk1, rfl⟩ := List.mem_map.mp w1
+      obtain ⟨i, hi1⟩ := List.mem_iff_getElem?.mp hk1
+      have w2 : k1.key ∉ t2.kout.map (·.key) := by
+        intro hm
+        obtain ⟨k2, hk2, he⟩ := List.mem_map.mp hm
+        exact hi.keys k1 hk1 k2 hk2 he.symm
+      rw [(applyTx_key_other (applyTx s t1) t2 _ w2).1, (applyTx_key_written s t1 hnd1 i k1 hi1).1,
+        (applyTx_key_written (applyTx s t2) t1 hnd1 i k1 hi1).1]
+    · by_cases w2 : key ∈ t2.kout.map (·.key)
+      · obtain ⟨k2, hk2, rfl⟩ := List.mem_map.mp w2
+        obtain ⟨i, hi2⟩ := List.mem_iff_getElem?.mp hk2
+        rw [(applyTx_key_written (applyTx s t1) t2 hnd2 i k2 hi2).1, (applyTx_key_other (applyTx s t2) t1 _ w1).1,
+          (applyTx_key_written s t2 hnd2 i k2 hi2).1]
+      · rw [(applyTx_key_other (applyTx s t1) t2 _ w2).1, (applyTx_key_other s t1 _ w1).1,
+          (applyTx_key_other (applyTx s t2) t1 _ w1).1, (applyTx_key_other s t2 _ w2).1]
+  · by_cases w1 : key ∈ t1.kout.map (·.key)
+    · obtain ⟨k1, hk1, rfl⟩ := List.mem_map.mp w1
+      obtain ⟨i, hi1⟩ := List.mem_iff_getElem?.mp hk1
+      have w2 : k1.key ∉ t2.kout.map (·.key) := by
+        intro hm
+        obtain ⟨k2, hk2, he⟩ := List.mem_map.mp hm
+        exact hi.keys k1 hk1 k2 hk2 he.symm
+      rw [(applyTx_key_other (applyTx s t1) t2 _ w2).2, (applyTx_key_written s t1 hnd1 i k1 hi1).2,
+        (applyTx_key_written (applyTx s t2) t1 hnd1 i k1 hi1).2, (applyTx_key_other s t2 _ w2).2]
+    · by_cases w2 : key ∈ t2.kout.map (·.key)
+      · obtain ⟨k2, hk2, rfl⟩ := List.mem_map.mp w2
+        obtain ⟨i, hi2⟩ := List.mem_iff_getElem?.mp hk2
+        rw [(applyTx_key_written (applyTx s t1) t2 hnd2 i k2 hi2).2, (applyTx_key_other s t1 _ w1).2,
+          (applyTx_key_other (applyTx s t2) t1 _ w1).2, (applyTx_key_written s t2 hnd2 i k2 hi2).2]
+      · rw [(applyTx_key_other (applyTx s t1) t2 _ w2).2, (applyTx_key_other s t1 _ w1).2,
+          (applyTx_key_other (applyTx s t2) t1 _ w1).2, (applyTx_key_other s t2 _ w2).2]
+  · rw [applyTx_total, applyTx_total, applyTx_total, applyTx_total]
+    omega
+
+/-- checking the inputs reads only the rows of the inputs -/
+theorem checkInputs_local (s s' : St) (lh : Int) (ins : List InRef) (seen : List Ver) (acc : Nat)
+    (h : ∀ r ∈ ins, lookup s.U (r.tx, r.off) = lookup s'.U (r.tx, r.off)) :
+    checkInputs s lh ins seen acc = checkInputs s' lh ins seen acc := by
+  induction ins generalizing seen acc with
+  | nil => rfl
+  | cons r rest ih =>
+    unfold checkInputs
+    rw [h r List.mem_cons_self]
+    have ih' := fun seen acc => ih seen acc (fun x hx => h x (List.mem_cons_of_mem _ hx))
+    split
+    · rfl
+    · split
+      · rfl
+      · split
+        · rfl
+        · split
+          · rfl
+          · split
+            · rfl
+            · exact ih' _ _
+
+/-- **admission is stable under an independent transaction**: if `t1` neither spends an input of `t2` nor creates
+one, and writes no key that `t2` reads, then `t2` gets the same verdict before and after `t1` -/
+theorem admission_stable (s : St) (lh : Int) (t1 t2 : Tx)
+    (hcite : ∀ r ∈ t2.ins, r.tx ≠ t1.id)
+    (hins : ∀ r ∈ t2.ins, (r.tx, r.off) ∉ t1.ins.map (fun x => (x.tx, x.off)))
+    (hkeys : ∀ ki ∈ t2.kin, ki.key ∉ t1.kout.map (·.key)) :
+    admitTx (applyTx s t1) lh t2 = admitTx s lh t2 := by
+  unfold admitTx checkInputEqualOutput
+  have h1 : checkInputs (applyTx s t1) lh t2.ins [] 0 = checkInputs s lh t2.ins [] 0 := by
+    apply checkInputs_local
+    intro r hr
+    rw [applyTx_U_lookup]
+    have a1 : ¬ ((r.tx, r.off).1 = t1.id ∧ materialises t1.outs 0 (r.tx, r.off).2 = true) :=
+      fun h => hcite r hr h.1
+    simp only [a1, hins r hr, ↓reduceIte]
+  have h2 : verifyRW (applyTx s t1) t2 = verifyRW s t2 := by
+    unfold verifyRW
+    have : ∀ l : List KIn, (∀ ki ∈ l, ki.key ∉ t1.kout.map (·.key)) →
+        l.all (fun ki => curVer (applyTx s t1) ki.key == ki.ver) = l.all (fun ki => curVer s ki.key == ki.ver) := by
+      intro l
+      induction l with
+      | nil => intro _; rfl
+      | cons ki rest ih =>
+        intro hl
+        obtain ⟨o1, o2⟩ := applyTx_key_other s t1 ki.key (hl ki List.mem_cons_self)
+        simp only [List.all_cons]
+        rw [ih (fun x hx => hl x (List.mem_cons_of_mem _ hx)), curVer_congr_tables _ _ _ o1 o2]
+    rw [this t2.kin hkeys]
+  rw [h1, h2]
+
+example :
+    let t1 := blkEnv.tx 11
+    let t2 : Tx := ⟨40, false, [], [⟨"x", 0, 0⟩], [⟨"q", none⟩], [⟨"q", "v", false⟩]⟩
+    Indep t1 t2 ∧ (applyTx (applyTx blkSt t1) t2).total = (applyTx (applyTx blkSt t2) t1).total :=
+  ⟨⟨by decide, by decide, by decide, by decide⟩, by decide⟩
+
 end XV.C01
